@@ -29,9 +29,48 @@ thread_local! {
 
 fn install_hook() {
     std::panic::set_hook(Box::new(|info| {
-        let l = info.location().map(|l| (l.file().to_string(), l.line()));
+        let mut l = info.location().map(|l| (l.file().to_string(), l.line()));
+        // A panic located in the standard library (e.g. `str::split_at`, `copy_from_slice`) is the
+        // fault of whoever called std with bad arguments: walk the backtrace and attribute it to the
+        // innermost frame that is neither std nor the panic machinery.
+        if let Some((file, _)) = &mut l {
+            if file.starts_with("/rustc/") || file.starts_with("library/") {
+                let bt = std::backtrace::Backtrace::force_capture().to_string();
+                if std_panic_caller_is_third_party(&bt) {
+                    file.push_str(" [called from a registry crate]");
+                } else {
+                    *file = format!("{file} [std panic reached from ruint code]");
+                }
+            }
+        }
         LAST_LOC.with(|x| *x.borrow_mut() = l);
     }));
+}
+
+const THIRD_PARTY: &[&str] = &[
+    "alloy_rlp", "fastrlp", "rlp::", "parity_scale_codec", "ssz::", "ethereum_ssz", "borsh", "der::", "serde_json", "serde::", "bincode",
+    "postgres_types", "bytes::", "num_bigint", "num_traits", "byte_slice_cast", "arrayvec", "hex::",
+];
+
+/// true iff the innermost non-std frame of the backtrace belongs to a third-party codec crate
+fn std_panic_caller_is_third_party(bt: &str) -> bool {
+    for line in bt.lines() {
+        let t = line.trim();
+        // frame lines look like "12: crate::path::function"; skip "at file:line" lines
+        let Some((idx, sym)) = t.split_once(": ") else { continue };
+        if idx.parse::<u32>().is_err() {
+            continue;
+        }
+        let sym = sym.trim_start_matches('<');
+        let is_std = ["std::", "core::", "alloc::", "rust_begin_unwind", "__rust", "rust_panic", "backtrace::", "_Unwind", "__libc", "_start", "main"]
+            .iter()
+            .any(|p| sym.starts_with(p));
+        if is_std || sym.contains("install_hook") || sym.contains("panic") && !sym.contains("ruint") {
+            continue;
+        }
+        return THIRD_PARTY.iter().any(|p| sym.starts_with(p) || sym.starts_with(&format!("<{p}")));
+    }
+    false
 }
 
 #[derive(Debug, Clone)]
@@ -55,6 +94,9 @@ fn catch_loc<T>(f: impl FnOnce() -> T) -> Result<T, Pan> {
 /// A panic is attributed to ruint unless its location is inside a registry
 /// crate, the standard library or this harness.
 fn in_ruint(file: &str) -> bool {
+    if file.ends_with("[std panic reached from ruint code]") {
+        return true;
+    }
     !(file.contains("/.cargo/registry/")
         || file.starts_with("/rustc/")
         || file.starts_with("library/")
@@ -2608,7 +2650,7 @@ fn main() {
             "num-bigint arithmetic and std formatting are correct (oracle)",
             "the reference codecs are self-tested at start-up against alloy-rlp, parity rlp, parity-scale-codec, der, bincode and serde_json on u64/u128 values",
             "x86-64 little-endian target only",
-            "panics located in registry crates, std or the harness are not attributed to ruint (counted as panic_outside_ruint)",
+            "panics located in registry crates or the harness are not attributed to ruint (counted as panic_outside_ruint); a panic located in std is attributed by backtrace to the innermost non-std frame (ruint unless that frame is a registry crate)",
             "acceptance of valid encodings is not required here (C16); lenient forms (parity-rlp leading zeros / single-byte form / trailing bytes, non-canonical SCALE compact, non-zero BIT padding bits, bincode trailing bytes, unquoted Postgres JSON text, over-long zero-padded slices) only have their value compared",
             "float conversions reached through Postgres FLOAT4/FLOAT8 are only required to be within 1 of the input (exact rounding is C18)",
         ],
